@@ -99,6 +99,34 @@ func (h *NtfnsHandler) Start() error {
 
 	curHeight := syncHeight + 1
 	if !hasReadyWallet && indexHeight > 2000 {
+		if curHeight < indexHeight-2000 {
+			// The fast-forward below only writes sync records, which is sound only on top of a
+			// stored tip that is still on the node's chain. "No wallet ready" includes wallets
+			// that are being imported: their transactions up to the rescan cursor are in the
+			// store, and only the reorganisation logic rolls them back and pulls the cursor back
+			// to the fork. If the stored tip was replaced while the wallet was down, the next
+			// block goes through processConnectedBlock (reorg) first.
+			sha, err := h.walletMgr.chainFetcher.FetchBlockShaByHeight(syncHeight)
+			if err != nil {
+				logging.CPrint(logging.ERROR, "FetchBlockShaByHeight error",
+					logging.LogFormat{"err": err, "height": syncHeight})
+				return err
+			}
+			if *sha != h.bestBlock.Hash {
+				blk, err := h.walletMgr.chainFetcher.FetchBlockByHeight(curHeight)
+				if err != nil {
+					logging.CPrint(logging.ERROR, "NtfnsHandler.Start(): FetchBlockByHeight error",
+						logging.LogFormat{"height": curHeight, "err": err})
+					return err
+				}
+				if err = h.processConnectedBlock(blk); err != nil {
+					logging.CPrint(logging.ERROR, "NtfnsHandler.Start(): processConnectedBlock error",
+						logging.LogFormat{"height": curHeight, "err": err})
+					return err
+				}
+				curHeight++
+			}
+		}
 		for ; curHeight < indexHeight-2000; curHeight++ {
 			sha, err := h.walletMgr.chainFetcher.FetchBlockShaByHeight(curHeight)
 			if err != nil {
